@@ -466,18 +466,28 @@ fn carrier(sides: &Value) -> Tree {
     }
 }
 
-fn weight(w: &Value, scale: f64) -> f64 {
+fn weight(w: &Value, scale: f64, negzero: bool) -> f64 {
     match w["t"].as_str().unwrap() {
         "nan" => f64::NAN,
         "inf" => f64::INFINITY,
         "ninf" => f64::NEG_INFINITY,
+        // the weight zero has two IEEE encodings: both are the number zero
+        _ if negzero && w["k"].as_i64() == Some(0) => -0.0,
         _ => w["k"].as_i64().unwrap() as f64 * scale,
     }
 }
 
+fn has_zero_weight(lists: &Value) -> bool {
+    (0..2).any(|pl| {
+        lists[pl].as_array().map_or(false, |l| {
+            l.iter().any(|e| e["acts"].as_array().map_or(false, |a| a.iter().any(|p| p["w"]["t"] != "nan" && p["w"]["k"].as_i64() == Some(0))))
+        })
+    })
+}
+
 type Named = Vec<(String, Vec<(String, f64)>)>;
 
-fn entry_lists(lists: &Value, scale: f64) -> [Named; 2] {
+fn entry_lists(lists: &Value, scale: f64, negzero: bool) -> [Named; 2] {
     let side = |l: &Value| -> Named {
         l.as_array()
             .unwrap()
@@ -489,7 +499,7 @@ fn entry_lists(lists: &Value, scale: f64) -> [Named; 2] {
                         .as_array()
                         .unwrap()
                         .iter()
-                        .map(|p| (p["a"].as_str().unwrap().to_string(), weight(&p["w"], scale)))
+                        .map(|p| (p["a"].as_str().unwrap().to_string(), weight(&p["w"], scale, negzero)))
                         .collect(),
                 )
             })
@@ -514,8 +524,16 @@ pub fn replay_import(args: &Args) {
             "near-third" => (1.0 + 3e-10) / 3.0,
             other => panic!("scale {other}"),
         };
+        let mut bad = Vec::new();
+        let mut dev = false;
+        // second pass: every zero weight written as -0.0 (the same number: the specified outcome is the same)
+        for negzero in [false, true] {
+        if negzero && !has_zero_weight(&case["lists"]) {
+            continue;
+        }
+        let pre = if negzero { "negzero:" } else { "" };
         let tree = carrier(&case["sides"]);
-        let lists = entry_lists(&case["lists"], scale);
+        let lists = entry_lists(&case["lists"], scale, negzero);
         let (l1, l2) = (lists.clone(), lists.clone());
         let res = util::catch(move || {
             let game = tree::build(&tree).expect("carrier game");
@@ -523,8 +541,6 @@ pub fn replay_import(args: &Args) {
             let slow = game.from_named_eq(l2).map(|s| s.verif_dense()).map_err(|e| format!("{e:?}"));
             (fast, slow)
         });
-        let mut bad = Vec::new();
-        let mut dev = false;
         let exp_err = case["exp"]["err"].as_str().unwrap();
         // does the total of some infoset overflow f64 although every weight is finite?
         let overflow = scale_name == "max"
@@ -536,7 +552,7 @@ pub fn replay_import(args: &Args) {
                 })
             });
         match res {
-            Err(msg) => bad.push(json!({"class": "panic", "what": "import panicked", "observed": msg})),
+            Err(msg) => bad.push(json!({"class": format!("{pre}{}", "panic"), "what": "import panicked", "observed": msg})),
             Ok((fast, slow)) => {
                 let same = match (&fast, &slow) {
                     (Ok(a), Ok(b)) => a == b,
@@ -544,14 +560,14 @@ pub fn replay_import(args: &Args) {
                     _ => false,
                 };
                 if !same {
-                    bad.push(json!({"class": "paths", "what": "from_named and from_named_eq disagree",
+                    bad.push(json!({"class": format!("{pre}paths"), "what": "from_named and from_named_eq disagree",
                         "observed": [format!("{fast:?}"), format!("{slow:?}")]}));
                 }
                 for (path, got) in [("from_named", &fast), ("from_named_eq", &slow)] {
                     match got {
                         Ok(dense) => {
                             if exp_err != "none" {
-                                bad.push(json!({"class": "accepts", "what": "import accepted an invalid named strategy", "path": path,
+                                bad.push(json!({"class": format!("{pre}{}", "accepts"), "what": "import accepted an invalid named strategy", "path": path,
                                     "violated": case["violated"]}));
                             } else {
                                 let mut ok = true;
@@ -569,16 +585,16 @@ pub fn replay_import(args: &Args) {
                                     }
                                 }
                                 if !ok {
-                                    bad.push(json!({"class": if overflow {"overflow"} else {"value"}, "what": "imported probabilities differ from weight / total", "path": path,
+                                    bad.push(json!({"class": format!("{pre}{}", if overflow {"overflow"} else {"value"}), "what": "imported probabilities differ from weight / total", "path": path,
                                         "observed": dense, "specified": case["exp"]["probs"]}));
                                 }
                             }
                         }
                         Err(kind) => {
                             if exp_err == "none" {
-                                bad.push(json!({"class": "rejects", "what": "import rejected a valid named strategy", "path": path, "observed": kind}));
+                                bad.push(json!({"class": format!("{pre}{}", "rejects"), "what": "import rejected a valid named strategy", "path": path, "observed": kind}));
                             } else if !case["violated"].as_array().unwrap().iter().any(|v| v.as_str() == Some(kind)) {
-                                bad.push(json!({"class": "kind", "what": "error names a rule that is not violated", "path": path,
+                                bad.push(json!({"class": format!("{pre}kind"), "what": "error names a rule that is not violated", "path": path,
                                     "observed": kind, "violated": case["violated"]}));
                             } else if kind != exp_err {
                                 dev = true;
@@ -587,6 +603,7 @@ pub fn replay_import(args: &Args) {
                     }
                 }
             }
+        }
         }
         if !bad.is_empty() {
             out.line(&json!({"id": n, "status": "violation", "mismatch": bad}));
